@@ -318,7 +318,7 @@ def _band_limited_case(method, degs, with_zero, rotate, seed=0):
     L = min(ag.degrees)//2
     nlm=(L+1)**2
     co = rng.normal(size=(nlm,3))
-    g = lambda r: (co[:,0,None]+co[:,1,None]*r+co[:,2,None]*r*r)*np.exp(-r)[None,:]*np.where(np.arange(nlm)[:,None]>0, r[None,:], 1.0)  # g_lm(0)=0 for l>0
+    g = lambda r: (co[:,0,None]+co[:,1,None]*r+co[:,2,None]*r*r)*np.exp(-r)[None,:]*(np.where(np.arange(nlm)[:,None]>0, r[None,:], 1.0) if with_zero != 'tiny' else 1.0)  # g_lm(0)=0 for l>0 (a tiny non-zero node keeps O(1) anisotropic content)
     def f(p):
         sph = ut.convert_cart_to_sph(p, c)
         Y = ut.generate_real_spherical_harmonics(L, sph[:,1], sph[:,2])
@@ -361,7 +361,7 @@ def band_limited_oracle():
             bad[str(cfg)] = f"{type(ex).__name__}: {str(ex)[:150]}"
             continue
         for k, v in out.items():
-            if not v <= (tol.get(k, 1e-9) if cfg[2] != "tiny" else max(tol.get(k, 1e-9), 1e-7)):      # a node spacing of 1e-9 costs the spline solve a few digits
+            if not v <= (tol.get(k, 1e-9) if cfg[2] != "tiny" else max(tol.get(k, 1e-9), 5e-6)):      # at r = 1e-9 the division by r^2 and the node spacing cost several digits
                 bad[f"{cfg}: {k}"] = float(v)
     return bad
 
